@@ -10,3 +10,6 @@ PYTHONPATH=.deps /venv/bin/python -c "import atheris" 2>/dev/null || \
 PYTHONPATH=.deps /venv/bin/python -c "import jsonschema" 2>/dev/null || \
   /venv/bin/pip install --no-index --find-links /opt/veriftools/wheels --target .deps jsonschema >/dev/null 2>&1 || true
 PYTHONPATH="$PWD:$PWD/.deps" /venv/bin/python -c "import hypothesis, mpservice; print('setup ok: hypothesis', hypothesis.__version__, 'mpservice', mpservice.__file__)"
+# scheduler self-test (litmus programs with known outcome sets, ~20 s); informational: a failure is printed loudly but does not fail setup
+PYTHONHASHSEED=0 PYTHONPATH="$PWD" /venv/bin/python tools/selftest.py || echo "WARNING: deterministic-scheduler self-test FAILED - results of the simulated checks are not trustworthy"
+exit 0
